@@ -422,9 +422,9 @@ def run_c37(ctx, replay_path=None):
     impl, model, dis = ctx.run_pair(sessions)
     for d in dis:
         ops = sessions[d["session"]]
-        if len(res.disagreements) < 1:
-            ops = ctx.shrink_disagreement(ops)
-        res.disagreements.append(dict(d, ops=ops))
+        # every op is independent of the ops before it (the toolbox has no state, the RNG script is
+        # part of the op), so the minimal disagreeing sequence is the op itself
+        res.disagreements.append(dict(d, ops=["reset", d["op"]], session_ops=len(ops)))
     seen_keys = set()
     for ops, r in zip(sessions, impl):
         res.sessions += 1
@@ -536,9 +536,9 @@ def run_c38(ctx, replay_path=None):
     impl, model, dis = ctx.run_pair(sessions)
     for d in dis:
         ops = sessions[d["session"]]
-        if len(res.disagreements) < 1 and not ops[1].startswith("passkeyscan"):
-            ops = ctx.shrink_disagreement(ops)
-        res.disagreements.append(dict(d, ops=ops))
+        # every op is independent of the ops before it (the toolbox has no state, the RNG script is
+        # part of the op), so the minimal disagreeing sequence is the op itself
+        res.disagreements.append(dict(d, ops=["reset", d["op"]], session_ops=len(ops)))
 
     def out_of_range(ops, outs, what_from):
         for k, (op, out) in enumerate(zip(ops, outs)):
